@@ -65,12 +65,11 @@ def dec_lemma(c):
 def codec_units(prop, make, tag, codecs=None):
     us = []
     for c in (codecs or C.all_codecs()):
-        if c.bounded:
-            continue
         if tag == 'acc' and isinstance(c, C.Empty):
             continue            # nothing is decoded
         loops = dict(c.loops)
-        u = Unit('%s/%s.%s' % (prop, tag, c.name), make(c), [prop], contracts=CONTRACTS, loops=loops,
+        c.tag = tag
+        u = Unit('%s/%s.%s' % (prop, tag, c.name), make(c), [prop], contracts=CONTRACTS, loops=loops, unroll=c.unroll, bounded=c.bounded,
                  functions=[c.cls + '.' + ('decode' if 'dec' in tag else 'encode')])
         us.append(u)
     return us
